@@ -130,12 +130,16 @@ def run(ctx):
         jobs = [(i, s, 6, ctx.seed) for i, s in enumerate(streams)]
     else:
         big = list(gc.grid_streams(4, 2, KS_KINDS))
-        jobs = [(i, s, 12, ctx.seed) for i, s in enumerate(big)]
-        jobs += [(len(big) + i, s, len(GRID_OPTIONS), ctx.seed) for i, s in enumerate(streams)]
-    recs = core.pmap(grid_job, jobs, chunk=200)
-    verdict = gc.validate(ctx, recs)
-    report(ctx, recs, verdict, "grid")
-    ctx.notes["c2s_grid_streams"] = len(recs)
+        jobs = [(i, s, 4, ctx.seed) for i, s in enumerate(big)]
+        jobs += [(len(big) + i, s, 45, ctx.seed) for i, s in enumerate(streams)]
+    # in batches: the thorough grid is millions of calls; records are validated and dropped batch by batch
+    nrec = 0
+    for lo in range(0, len(jobs), 40000):
+        recs = core.pmap(grid_job, jobs[lo:lo + 40000], chunk=200)
+        verdict = gc.validate(ctx, recs)
+        report(ctx, recs, verdict, "grid")
+        nrec += len(recs)
+    ctx.notes["c2s_grid_streams"] = nrec
     rng = random.Random(ctx.seed * 7 + 2)
     recs = []
     nrand = 500 if quick else 12000
